@@ -535,7 +535,8 @@ func (m *grpcMarshaler) MarshalWebTrailers(trailer http.Header) *Error {
 			continue
 		}
 		delete(trailer, key)
-		trailer[lower] = values
+		// Append: the map may also hold values under the lower-case spelling.
+		trailer[lower] = append(trailer[lower], values...)
 	}
 	if err := trailer.Write(raw); err != nil {
 		return errorf(CodeInternal, "format trailers: %w", err)
